@@ -3,6 +3,7 @@ package props
 import (
 	"fmt"
 	"math"
+	"sync"
 	"testing"
 
 	"go.1password.io/spg"
@@ -98,6 +99,31 @@ func c08Run(c c08Case) error {
 				}
 			}
 		}
+	}
+	// first Entropy() calls on a freshly built list made from several goroutines at once
+	if wl, err := spg.NewWordList(append([]string{}, c.W.Words...)); err == nil && (c.W.Scheme == "random" || c.W.Scheme == "one") {
+		r := spg.NewWLRecipe(c.W.Length, wl)
+		r.Capitalize = spg.CapScheme(c.W.Scheme)
+		want := oracle.WLEntropy(c.W.Length, kept, c.W.Scheme, 0)
+		var wg sync.WaitGroup
+		res := make([]float32, 6)
+		start := make(chan struct{})
+		for g := range res {
+			wg.Add(1)
+			go func(g int) {
+				defer wg.Done()
+				<-start
+				res[g] = r.Entropy()
+			}(g)
+		}
+		close(start)
+		wg.Wait()
+		for _, got := range res {
+			if !oracle.Close32(got, want, 4, 0) {
+				return fmt.Errorf("first Entropy() calls made concurrently on a fresh list: got %v, want %.6f", got, want)
+			}
+		}
+		ev.Class("concurrent_first_calls")
 	}
 	// one list object shared by several recipes evaluated in turn: the value
 	// depends on the recipe alone, not on which recipe asked before
